@@ -19,7 +19,7 @@ type node struct {
 	agg     bool
 	kids    []*node // F, P children; C: kids[0] = then
 	prios   []int64 // P
-	cond    int     // C: index into condPool
+	cond    *condSpec // C
 	els     *node   // C
 }
 
@@ -48,7 +48,7 @@ func (n *node) tokens(out *[]string) {
 			k.tokens(out)
 		}
 	case 'C':
-		*out = append(*out, "C", strconv.Itoa(n.cond), n.scope, b01(n.els != nil))
+		*out = append(*out, "C", n.cond.token(), n.scope, b01(n.els != nil))
 		n.kids[0].tokens(out)
 		if n.els != nil {
 			n.els.tokens(out)
@@ -135,9 +135,9 @@ func parseNode(t []string) (*node, []string, bool) {
 		}
 		return n, rest, true
 	case t[0] == "C" && len(t) >= 4:
-		c, err := strconv.Atoi(t[1])
+		c, okc := parseCondTok(t[1])
 		he, ok1 := p01(t[3])
-		if err != nil || c < 0 || c >= len(condPool) || !validScopeTok(t[2]) || !ok1 {
+		if !okc || !validScopeTok(t[2]) || !ok1 || (c.kind == 'p' && he) { // port.Filter has no else
 			return nil, nil, false
 		}
 		n := &node{kind: 'C', cond: c, scope: t[2]}
@@ -271,12 +271,12 @@ func (n *node) json(root bool) string {
 		}
 		return fmt.Sprintf(`{"priority.Group": {%s"modifiers": [%s]}}`, scopeJSON(n.scope), strings.Join(ks, ", "))
 	case 'C':
-		c := condPool[n.cond]
+		c := n.cond
 		els := ""
 		if n.els != nil {
 			els = `, "else": ` + n.els.json(false)
 		}
-		return fmt.Sprintf(`{"%s": {%s%s"modifier": %s%s}}`, c.filter, c.params, scopeJSON(n.scope), n.kids[0].json(false), els)
+		return fmt.Sprintf(`{"%s": {%s%s"modifier": %s%s}}`, c.filter(), c.params(), scopeJSON(n.scope), n.kids[0].json(false), els)
 	}
 	return "?"
 }
